@@ -149,7 +149,9 @@ fn group(headers: &[(String, Vec<u8>)], signed: &[String]) -> Vec<(String, Vec<V
     for name in signed {
         let vals: Vec<Vec<u8>> =
             headers.iter().filter(|(n, _)| n.to_ascii_lowercase() == *name).map(|(_, v)| v.clone()).collect();
-        if !vals.is_empty() && !out.iter().any(|e| &e.0 == name) {
+        // one entry per occurrence in the declared list: a name listed twice contributes its line twice (this is
+        // what the reference verifier and the implementation both do with a repeated name)
+        if !vals.is_empty() {
             out.push((name.clone(), vals));
         }
     }
